@@ -57,6 +57,14 @@ def jobs(tier):
                            functions=["_vnacal_new_add_common (cell maps)", "vnacal_new_add_line_m"],
                            bound="%s 3x3, two-port standard with abbreviated 2x2 M on ports (%d,%d); measured values symbolic" % (t, p1, p2),
                            timeout=300))
+    # link 1 starts at the entry points: the m and the a/b form of through / line / mapped matrix hand the funnel the
+    # SAME description of the standard (S parameters, port map in the caller's order) - job of C17, re-run here
+    import C17
+    for j in C17.wrapper_jobs(tier):
+        j.name = "entry_points." + j.name
+        j.canary = False
+        j.imported = True
+        J.append(j)
     import C15
     asrc = ["vnacal_apply.c", "vnacal_create.c", "vnacal_free.c", "vnacal_calibration.c", "vnacal_parameter.c",
             "vnacal_layout.c", "vnacal_error.c", "vnacal_get.c"] + C15.SRCS
